@@ -962,7 +962,7 @@ func C04() *check.Property {
 		Title:    "Each operator computes its documented function of the input sequence",
 		Patterns: cat(CorePatterns, PluginPkgs, IOPluginPkgs, []string{PromPkg}, RatePkgs),
 		Scope:    []string{ro},
-		Rules:    []check.Rule{ruleAdapter(), ruleAlias(), rulePipe(), ruleNoPostDeliveryMutation(), ruleDeadEmission(), ruleStateLevel(), ruleTerminalPropagation(), ruleObservableParamUsed(), ruleContextlessDelegates(), ruleBodyTerminates(), ruleLateEmission(), ruleConsumeFlag(), rulePublishBeforeEmit(), ruleTerminalCallAgreement(), ruleTimerDequeueCoupled(), ruleQueueFIFO(), ruleIncorporateBeforeDecide(), ruleAccessGuarded(), ruleGoSourceTerminates(), withScope(ruleStableMeansStable(), PluginPkgs...), ruleAtomicPointeeImmutable(), ruleInnerFilledBeforeHandover(), ruleGetOrCreate(), ruleNoDuplicateForward()},
+		Rules:    []check.Rule{ruleShareReplayConfig(), ruleAdapter(), ruleAlias(), rulePipe(), ruleNoPostDeliveryMutation(), ruleDeadEmission(), ruleStateLevel(), ruleTerminalPropagation(), ruleObservableParamUsed(), ruleContextlessDelegates(), ruleBodyTerminates(), ruleLateEmission(), ruleConsumeFlag(), rulePublishBeforeEmit(), ruleTerminalCallAgreement(), ruleTimerDequeueCoupled(), ruleQueueFIFO(), ruleIncorporateBeforeDecide(), ruleAccessGuarded(), ruleGoSourceTerminates(), withScope(ruleStableMeansStable(), PluginPkgs...), ruleAtomicPointeeImmutable(), ruleInnerFilledBeforeHandover(), ruleGetOrCreate(), ruleNoDuplicateForward()},
 		Explanation: "Narrow structural claim. The values each operator computes are NOT decided (no executable specification of ~150 operators is derivable from the source). Four clauses of the property are visible in the code's shape and are decided: " +
 			"(ADAPTER) plain / indexed / context-aware variants that delegate through a literal are pure adapters — user function called once, only the adapter's own parameters passed, the right context returned — hence observationally identical to the base form; " +
 			"(ALIAS) aliases forward every parameter exactly once; (PIPE) the 50 typed PipeN/PipeOpN apply their operators in order, so a chain is the composition of its parts; " +
